@@ -90,6 +90,11 @@ class Result:
         if f.key not in {x.key for x in self.findings}:
             self.findings.append(f)
 
+    def new_findings(self):
+        """findings that are not listed as known for this property"""
+        known = {k["key"] for k in load_known().get("known", []) if k["property"] == self.pid}
+        return [f for f in self.findings if f.key not in known]
+
     def require(self, cond, what):
         if not cond:
             raise AnalysisError(what)
